@@ -33,7 +33,7 @@ def trp2 (m : Nat → Nat) (p : Nat × Val) : Nat × Val := (p.1, trf m p.2)
 /-! ## The fragment F2a -/
 
 /-- the global names that are not first-order builtins; the fragment does not mention them -/
-def hoNames : List String := ["map", "apply", "substitute"]
+def hoNames : List String := ["substitute"]
 
 def okSym (x : String) : Bool := !hoNames.contains x
 
@@ -811,8 +811,11 @@ theorem GoodFn.mono {m m' : Nat → Nat} {s s' : St} {rs rs' : Ref.St} {vid : Na
   exact hfc.transfer s.scopes.length hfl hr.1 hk (Nat.le_refl _) hsl (fun q hq => Nat.lt_trans (hch.k_lt q hq) hel)
     (takeToBoundary_chain hch hfle)
 
-/-- the builtins a value of the fragment may hold: the first-order ones and `force` -/
-def okB (n : String) : Prop := n ∈ foBuiltins ∨ n = "force"
+/-- the Go builtins that call back into the machine -/
+def hoB (n : String) : Prop := n = "force" ∨ n = "apply" ∨ n = "map"
+
+/-- the builtins a value of the fragment may hold: the first-order ones and `force`, `apply`, `map` -/
+def okB (n : String) : Prop := n ∈ foBuiltins ∨ hoB n
 
 /-- a value of the VM state is in order: its functions are closure objects with their reference
 closures, its builtins first-order or `force`, no stack mark in it -/
@@ -837,13 +840,10 @@ def HOk (m : Nat → Nat) (s : St) (rs : Ref.St) (h : DataHeap) : Prop :=
 the memo related, and the captured stack is the static chain of the
 thunk's creation frame, continued along the closing stacks of the function that made the call -/
 structure LzOk (m : Nat → Nat) (s : St) (rs : Ref.St) (lz : LazyObj) (th : Ref.Thunk) : Prop where
-  e : th.e = lz.e
-  isvL : lz.isValue = false
-  isvT : th.isValue = false
   val : th.value = lz.value.map (trf m)
   vok : ∀ v, lz.value = some v → VOk m s rs v
-  expr : Ff false "" lz.e = true
-  chain : th.env < s.scopes.length ∧ lz.stack.getLast? = some (some 0)
+  /-- as long as there is no memo (an object made by `apply`/`map` from a value has one from the start) -/
+  todo : lz.value = none → th.e = lz.e ∧ Ff false "" lz.e = true ∧ th.env < s.scopes.length ∧ lz.stack.getLast? = some (some 0)
     ∧ ∃ k, ChainF (isFnScope s) rs.frames k th.env lz.stack ∧ FnChainF s rs.frames lz.stack k lz.curfunc
 
 /-- the table of lazy argument objects against the table of thunks: same length, entry by entry -/
@@ -990,16 +990,16 @@ theorem LzOk.mono {m m' : Nat → Nat} {s s' : St} {rs rs' : Ref.St} {lz : LazyO
     (hfl : ∀ i, i < s.scopes.length → isFnScope s' i = isFnScope s i) (hr : RExt rs rs') (hm : MExt s m m') :
     LzOk m' s' rs' lz th := by
   have hgood : ∀ id, GoodFn m s rs id → GoodFn m' s' rs' id := fun id hg => hg.mono hk hsl hfl hr (hm id hg.lt)
-  refine ⟨h.e, h.isvL, h.isvT, ?_, fun v hv => ValIn.mono (h.vok v hv) hgood, h.expr, ?_⟩
+  refine ⟨?_, fun v hv => ValIn.mono (h.vok v hv) hgood, fun hn => ?_⟩
   · rw [h.val]
     cases hl : lz.value with
     | none => rfl
     | some v =>
       simp only [Option.map_some]
       exact congrArg some ((h.vok v hl) m m' id id id id ⟨fun id hg => (hm id hg.lt).symm, fun _ _ => rfl, fun _ _ => rfl⟩)
-  · obtain ⟨hel, hb, k, hch, hfc⟩ := h.chain
+  · obtain ⟨he, hex, hel, hb, k, hch, hfc⟩ := h.todo hn
     have hfle : ∀ i, i ≤ th.env → isFnScope s' i = isFnScope s i := fun i hi => hfl i (by omega)
-    exact ⟨Nat.lt_of_lt_of_le hel hsl, hb, k, hch.congr hr.1 hfle,
+    exact ⟨he, hex, Nat.lt_of_lt_of_le hel hsl, hb, k, hch.congr hr.1 hfle,
       hfc.transfer s.scopes.length hfl hr.1 hk (Nat.le_refl _) hsl (fun q hq => Nat.lt_trans (hch.k_lt q hq) hel) (takeToBoundary_chain hch hfle)⟩
 
 theorem LazyRel.mono {m m' : Nat → Nat} {s s' : St} {rs rs' : Ref.St} (h : LazyRel m s rs)
@@ -1084,6 +1084,12 @@ theorem RelF.of_same {m : Nat → Nat} {s s' : St} {rs rs' : Ref.St} {env : Nat}
   exact hfc.transfer rs.frames.length (fun i _ => by rw [hfl]) (fun i fr hf => ⟨fr, hf, rfl⟩) hk (Nat.le_of_eq h.len) (by rw [hsc]; exact Nat.le_refl _)
     (fun e he => Nat.lt_trans (hc.k_lt e he) hc.lt) (by rw [hfl])
 
+/-- the state seen as running function `f` (inside a Go builtin the relation is stated for the function that called it) -/
+def _root_.ZygoVerif.VM.St.withCur (s : St) (f : Nat) : St := { s with curfunc := f }
+
+theorem withCur_self {s : St} {f : Nat} (h : s.curfunc = f) : s.withCur f = s := by
+  subst h; rfl
+
 theorem RelF.jmp {m s rs env} (h : RelF m s rs env) (p : Int) (d : List (Option Val)) : RelF m (s.jmp p d) rs env :=
   h.of_same rfl rfl rfl rfl rfl rfl h.heap h.trace h.hok
 
@@ -1126,7 +1132,7 @@ theorem RelF.allocLazy {m s rs env} (h : RelF m s rs env) (e : Expr) (he : Ff fa
       rw [hid0] at hl'
       simp only [List.getElem?_cons_zero, Option.some.injEq] at hl'
       subst hl'
-      refine ⟨{ e, env, value := none }, ?_, ⟨rfl, rfl, rfl, rfl, (fun v hv => by cases hv), he, ?_⟩⟩
+      refine ⟨{ e, env, value := none }, ?_, ⟨rfl, (fun v hv => by cases hv), fun _ => ⟨rfl, he, ?_⟩⟩⟩
       · show (rs.thunks ++ [_])[id]? = _
         rw [List.getElem?_append_right (by rw [← h.lz.1]; exact hge), ← h.lz.1, hid0]; rfl
       · refine ⟨by show env < s.scopes.length; rw [h.len]; exact hc.lt, h.bottom, k, hc, ?_⟩
